@@ -551,11 +551,15 @@ def run(ctx: Ctx):
                 "the recorded stdlib callbacks. (2) malformed: token soup of 65 fragments; real parse vs model and vs an independent Python "
                 "adapter+fold over the recorded callbacks. (3) option grid: on_duplicate_attribute x empty_element_tags x containers x "
                 "preserve x store_line_numbers. non-trivial = contains a void element, a reference, a special string or a stray end tag")
-    ctx.assumptions = ["CPython's html.parser callback stream is recorded per text, not verified", "str input (original_encoding None)"]
+    ctx.assumptions = ["CPython's html.parser callback stream is recorded per text; the Lean tokenizer model (Model/Tokenizer.lean) reproduces it on every "
+                       "text of this run (stream tokenizer-model), so the adapter theorems apply to `callbacks (Tokenizer.run text)`",
+                       "str input (original_encoding None)"]
     drv = Driver()
     lines, impls, cases = [], [], []
+    tk_texts = {}          # every text of every stream, for the tokenizer-model stream (the Lean tokenizer vs the recorder)
 
     def add_case(text, opts, stream, expected=None):
+        tk_texts.setdefault(text, None)
         try:
             soup = real_parse(text, opts)
         except Exception as e:
@@ -671,6 +675,10 @@ def run(ctx: Ctx):
             t2 = write(r2, nodes, [], [0])
             t2 = "".join(ch for ch in t2 if ord(ch) < 128) + f"&#{r2.choice(undefined)};"
             add_case(t2, {"enc": enc}, "references-bytes")
+    # tokenizer-model: the callback stream this check records is also what the Lean model of the tokenizer (Model/Tokenizer.lean, theorems in
+    # Props/TK.lean) computes from the text - on every text of every stream above, rejected ones included
+    from . import tk
+    tk.stream(ctx, list(tk_texts), name="tokenizer-model", drv=drv)
     B = 20000
     for off in range(0, len(lines), B):
         rep = drv.ask(lines[off:off + B])
